@@ -82,12 +82,22 @@ func (q *queue) enqueue(c *caller) bool {
 	q.mu.Lock()
 	defer q.mu.Unlock()
 	if q.dead {
+		if verifhook.Enabled {
+			verifhook.Point("lock.enq.dead", q, c.id)
+		}
 		return false
 	}
 	wasEmpty := len(q.callers) == 0
 	q.callers = append(q.callers, c)
 	if wasEmpty {
 		close(c.ready)
+	}
+	if verifhook.Enabled {
+		ids := make([]string, len(q.callers))
+		for i, x := range q.callers {
+			ids[i] = x.id
+		}
+		verifhook.Point("lock.contents", q, ids)
 	}
 	if verifhook.Enabled {
 		verifhook.Point("lock.enq", q, c.id, wasEmpty)
@@ -119,7 +129,17 @@ func (q *queue) remove(id string) bool {
 			// Nobody holds or waits for this key any more: retire the queue so that the map does
 			// not keep one entry per key ever locked.
 			q.dead = true
+			if verifhook.Enabled {
+				verifhook.Point("lock.dead", q, id)
+			}
 			q.drop(q)
+		}
+		if verifhook.Enabled {
+			ids := make([]string, len(q.callers))
+			for i, x := range q.callers {
+				ids[i] = x.id
+			}
+			verifhook.Point("lock.contents", q, ids)
 		}
 		if verifhook.Enabled {
 			verifhook.Point("lock.rm", q, id, true)
@@ -153,9 +173,15 @@ func (l *lock) Lock(ctx context.Context, key string, ttl time.Duration) (lockID 
 	if verifhook.Enabled {
 		verifhook.Point("lock.gotq", q, lockID)
 	}
+	if verifhook.Enabled {
+		verifhook.Point("lock.key", q, key, lockID)
+	}
 	for !q.enqueue(c) {
 		// the queue was retired between getQueue and enqueue: take the key's current one
 		q = l.getQueue(key)
+		if verifhook.Enabled {
+			verifhook.Point("lock.key", q, key, lockID)
+		}
 	}
 
 	if verifhook.Enabled {
